@@ -7,27 +7,19 @@ import (
 	"context"
 	"encoding/json"
 	"sort"
+	"strconv"
 	"time"
 
 	"github.com/jrhy/s3db"
+	"github.com/jrhy/s3db/kv"
 	v1proto "github.com/jrhy/s3db/proto/v1"
 	"google.golang.org/protobuf/proto"
 )
 
-func (e *Exec) doDump(s Step) {
-	c := e.client(s.str("c"))
-	out := map[string]interface{}{}
-	vt := s3db.GetTable(c.table)
-	if vt == nil || vt.Tree == nil || vt.Tree.Root == nil {
-		out["outcome"] = "error"
-		out["err"] = "table not registered"
-		out["entries"] = []interface{}{}
-		e.emit("dump", s, out)
-		return
-	}
+func (e *Exec) dumpDB(root *kv.DB, out map[string]interface{}) {
 	ctx := context.Background()
 	entries := []interface{}{}
-	cur, err := vt.Tree.Root.Cursor(ctx)
+	cur, err := root.Cursor(ctx)
 	if err == nil {
 		err = cur.Min(ctx)
 	}
@@ -39,10 +31,11 @@ func (e *Exec) doDump(s Step) {
 		key := k.(*s3db.Key)
 		mod := time.Unix(0, v.ModEpochNanos)
 		ent := map[string]interface{}{
-			"key":  fmtLit(key.Value()),
-			"mod":  e.tr.TimeToken(mod),
-			"tomb": v.Tombstoned(),
-			"prev": "-",
+			"key":   fmtLit(key.Value()),
+			"mod":   e.tr.TimeToken(mod),
+			"modns": strconv.FormatInt(v.ModEpochNanos, 10),
+			"tomb":  v.Tombstoned(),
+			"prev":  "-",
 		}
 		if v.PreviousRoot != "" {
 			ent["prev"] = e.tr.VersionToken(v.PreviousRoot)
@@ -60,7 +53,8 @@ func (e *Exec) doDump(s Step) {
 			sort.Strings(names)
 			for _, n := range names {
 				cv := row.ColumnValues[n]
-				cols = append(cols, []interface{}{n, e.tr.TimeToken(mod.Add(cv.UpdateOffset.AsDuration())), fmtLit(s3db.FromSQLiteValue(cv.Value))})
+				ct := mod.Add(cv.UpdateOffset.AsDuration())
+				cols = append(cols, []interface{}{n, e.tr.TimeToken(ct), fmtLit(s3db.FromSQLiteValue(cv.Value)), strconv.FormatInt(ct.UnixNano(), 10)})
 			}
 		}
 		ent["live"] = live
@@ -72,9 +66,58 @@ func (e *Exec) doDump(s Step) {
 	out["outcome"] = classifyErr(err)
 	out["err"] = errStr(err)
 	out["entries"] = entries
-	out["size"] = int(vt.Tree.Root.Size())
-	out["height"] = vt.Tree.Root.Height()
+	out["size"] = int(root.Size())
+	out["height"] = root.Height()
+}
+
+func (e *Exec) doDump(s Step) {
+	c := e.client(s.str("c"))
+	out := map[string]interface{}{}
+	vt := s3db.GetTable(c.table)
+	if vt == nil || vt.Tree == nil || vt.Tree.Root == nil {
+		out["outcome"] = "error"
+		out["err"] = "table not registered"
+		out["entries"] = []interface{}{}
+		e.emit("dump", s, out)
+		return
+	}
+	e.dumpDB(vt.Tree.Root, out)
 	e.emit("dump", s, out)
+}
+
+// doKVDump opens the table's tree directly through s3db.OpenKV (read-only,
+// optionally restricted to the given versions) as a fresh client with an
+// empty cache, and dumps its registers: what "another process" reads from the
+// bucket alone.
+func (e *Exec) doKVDump(s Step) {
+	c := e.client(s.str("c"))
+	opts := s3db.S3Options{Bucket: e.st.name, Endpoint: "http://" + c.id, Prefix: e.prefix, ReadOnly: true,
+		EntriesPerNode: s.num("epn", e.epn), NodeCacheEntries: s.num("cache", 0)}
+	only, hasOnly := e.vlist(s, "only")
+	out := map[string]interface{}{"only": only, "has_only": hasOnly}
+	if hasOnly {
+		names := []string{}
+		for _, t := range only {
+			if n, ok := e.tr.VersionName(t); ok {
+				names = append(names, n)
+			} else {
+				names = append(names, "missing-"+t)
+			}
+		}
+		opts.OnlyVersions = names
+	}
+	e.setPlanForOpen(c, s)
+	kvh, err := s3db.OpenKV(context.Background(), opts, "s3db-rows")
+	if err != nil {
+		out["outcome"] = classifyErr(err)
+		out["err"] = errStr(err)
+		out["entries"] = []interface{}{}
+		e.emit("kvdump", s, out)
+		return
+	}
+	e.dumpDB(kvh.Root, out)
+	kvh.Root.Cancel()
+	e.emit("kvdump", s, out)
 }
 
 type rootObj struct {
